@@ -2168,14 +2168,17 @@ generalized_affine_preimage(const Variable var,
       = expr - (denominator + var_coefficient) * var;
     PPL_DIRTY_TEMP_COEFFICIENT(inverse_denominator);
     neg_assign(inverse_denominator, var_coefficient);
-    if (modulus < 0) {
-      generalized_affine_image(var, EQUAL, inverse_expr, inverse_denominator,
-                               - modulus);
+    // The transformation is invertible: take the image under the
+    // inverse of `var' = expr/denominator'.  In the relation `var''
+    // may change by multiples of `modulus', hence `var' by multiples
+    // of `modulus * denominator / var_coefficient'.
+    affine_image(var, inverse_expr, inverse_denominator);
+    if (is_empty()) {
+      return;
     }
-    else {
-      generalized_affine_image(var, EQUAL, inverse_expr, inverse_denominator,
-                               modulus);
-    }
+    add_grid_generator(parameter(modulus * denominator * var,
+                                 var_coefficient));
+    PPL_ASSERT(OK());
     return;
   }
 
